@@ -12,6 +12,14 @@ CLAIMED = {
   "text": "Byte-level Lean models of every accessor (same running jentry/value/key offsets as functions.rs and iterator.rs, slices that can panic made explicit) and tree-level spec functions. Proved, unbounded: iterate_array/iterate_object_entries on the README layout yield exactly the members; get_jentry_by_index lands on the sum of earlier payload lengths; array_length and get_by_index refine the tree functions for every index and hand back canonical documents. All other accessors (get_by_name incl. ignore-case, key paths with negative indices, keys, each, values, type_of, casts, key existence, string traversal) are tied by correspondence (model vs Rust) and decided by the spec oracle (tree answer vs Rust) over all indices, all keys with case variants and prefixes, and key paths drawn from the document.",
   "note": "Refinement theorems exist for array_length and get_by_index only so far; for the other accessors the claim rests on the sampled oracle, not on a theorem (listed as not_yet_proved in the evidence). to_f64/to_str on floats depend on ryu / str::parse, modelled (parseF64 validated against Rust by the strf64 op).",
  },
+ "C06": {
+  "text": "Byte-level Lean models of every editor (iterate inputs, push raw entries into Array/ObjectBuilder models, build_into the caller's buffer; i32 index arithmetic with overflow as an explicit panic; error codes InvalidJsonType/InvalidObject/ObjectDuplicateKey) and tree-level spec functions for each. Proved, unbounded: builder frame/layout theorem with nested builders, array-from-raw-entries = canonical array, delete_by_index for every i32, concat of arrays. All editors are run with empty, random and document-shaped prior buffers; the real code's appended bytes are compared with the model (correspondence) and with encodeSpec of the tree edit (oracle), documented errors must leave the buffer untouched.",
+  "note": "Defect D18 (build_object wrote keys in argument order) repaired in /repo. Refinement theorems cover the array editors named above; the other editors rest on correspondence + oracle (listed in evidence as not_yet_proved).",
+ },
+ "C13": {
+  "text": "Spec functions distinct / intersection / except / overlap on element lists with identity = same entry word and payload; proved laws: first occurrence, no repeats, idempotence, intersection/except partition the first list by one decision sequence, overlap iff intersection non-empty; byte-level array_distinct refines the spec and yields a canonical array. Correspondence and oracle over pairs of derived documents with heavy duplication, nested equal/unequal containers, scalar and object operands, empty arrays.",
+  "note": "Byte-level refinement is proved for array_distinct only; intersection/except/overlap byte walkers are tied by correspondence and decided by the spec oracle.",
+ },
  "C10": {
   "text": "Theorem: for every byte string (and every fuel) the decoder model reaches no panic site; valid encodings decode without running out of fuel. The model mirrors de.rs/number.rs call by call with every unwrap/index/assert as an explicit panic outcome; correspondence runs truncations, bit flips, substitutions, insert/delete, rewritten count/type/length words and random bytes through parse_jsonb and the model. Any panic of the real code is reported as a violation.",
   "note": "Three genuine defects were repaired first (fix: commits 62e309b, 3f3a454, 5f197fa). Still to be proved: UTF-8 of returned strings (checked by correspondence now), prefix rejection, text fallback of from_slice (needs the JSON parser model).",
